@@ -1,5 +1,6 @@
 import Proofs.PostLemmas
 import Proofs.C05
+import Liquid.Std
 /-!
 # C07 — every failure is a SourceError that locates the offending tag or object
 -/
@@ -122,6 +123,88 @@ theorem run_output_xor_error (P : Prims) (O : OutPrims) (cfg : Cfg) (fs : FS) (f
   | err e => exact Or.inr (Or.inl ⟨e, rfl⟩)
   | panic w => exact Or.inr (Or.inr (Or.inl ⟨w, rfl⟩))
   | unmodelled w => exact Or.inr (Or.inr (Or.inr ⟨w, rfl⟩))
+
+/-! ## Output or an error, never both — the entry points that RETURN a value
+
+`Template.Render` and `Template.RenderString` render into a buffer of their own and return `(nil / "", err)` when
+the render fails; the model's `run` (and `runStd`, the same with the standard value and output layers) is that
+entry point: `RunResult` is output, or an error, or one of the model outcomes. `Template.FRender(w, vars)` is
+`frender`, run against the caller's writer: what that writer accepted before the error (`written` below) stays
+written. The three theorems say how the two are related: when `FRender` into a buffer ends with an error,
+`Render` returns that error and drops everything that had been written; `Render` returns output only when
+`FRender` ended without an error, and then all of it. -/
+
+/-- **C07 (no output together with an error).** When `run` — `Render` / `RenderString` — returns an error it returns
+    no output: the two results exclude each other (in the model by the type of the result; on the real code it is
+    the `errloc` oracle that checks `out == nil` resp. `out == ""` next to every error). -/
+theorem run_error_no_output (P : Prims) (O : OutPrims) (cfg : Cfg) (fs : FS) (fuel : Nat) (src : Bytes) (line : Nat) (env : Env)
+    (e : SErr) (h : run P O cfg fs fuel src line env = .err e) : ∀ out, run P O cfg fs fuel src line env ≠ .ok out := by
+  intro out ho
+  rw [h] at ho
+  cases ho
+
+/-- **C07 (what was written before the error is not returned).** For a source that compiles to `root`: when
+    `FRender` into a buffer ends with the error `e` after the buffer has received `written` — any bytes, a prefix
+    of the output may have gone out already — `run` returns the error `e` and nothing of `written`. -/
+theorem run_error_discards_written (P : Prims) (O : OutPrims) (cfg : Cfg) (fs : FS) (fuel : Nat) (src : Bytes) (line : Nat) (env : Env)
+    (root : List Node) (written : Bytes) (e : SErr) (hc : compileSource cfg.delims src line = .ok root)
+    (h : (frender P O cfg fs fuel root env).runPure = (written, .err (.located e))) :
+    run P O cfg fs fuel src line env = .err e := by
+  unfold run
+  rw [hc]
+  simp only [h]
+
+/-- **C07 (output means the whole render succeeded).** For a source that compiles to `root`: `run` returns the
+    output `out` if and only if `FRender` into a buffer wrote exactly `out` and ended without an error. -/
+theorem run_ok_iff_frender_ok (P : Prims) (O : OutPrims) (cfg : Cfg) (fs : FS) (fuel : Nat) (src : Bytes) (line : Nat) (env : Env)
+    (root : List Node) (out : Bytes) (hc : compileSource cfg.delims src line = .ok root) :
+    run P O cfg fs fuel src line env = .ok out ↔ (frender P O cfg fs fuel root env).runPure = (out, .ok ()) := by
+  unfold run
+  rw [hc]
+  simp only
+  constructor
+  · intro h
+    split at h
+    · next out' u hr => cases h; exact hr
+    · cases h
+    · cases h
+    · cases h
+    · cases h
+  · intro h
+    rw [h]
+
+/-- the same for the standard engine (`runStd`: standard filters and output layer, 100 include levels) -/
+theorem runStd_error_no_output (cfg : Cfg) (fs : FS) (src : Bytes) (line : Nat) (env : Env) (e : SErr)
+    (h : runStd cfg fs src line env = .err e) : ∀ out, runStd cfg fs src line env ≠ .ok out :=
+  run_error_no_output stdPrims stdOut cfg fs maxIncludeDepth src line env e h
+
+/-! `a⏎{% if true %}⏎{{ y }}{% endif %}` with strict variables, `y` unbound: `FRender` has written `a⏎` when the
+    object fails at line 3; `Render` returns the error alone. -/
+def c07WrittenSrc : Bytes := [97, 10, 123, 37, 32, 105, 102, 32, 116, 114, 117, 101, 32, 37, 125, 10, 123, 123, 32, 121, 32, 125, 125,
+  123, 37, 32, 101, 110, 100, 105, 102, 32, 37, 125]
+
+theorem c07Written_compiles : compileSource [] c07WrittenSrc 1 =
+    .ok [.text 1 [97, 10], .ifB 2 [(.expr 2 (.lit (.bool true)), [.text 2 [10], .obj 3 (.var [121])])]] := by rfl
+
+theorem c07Written_frender (P : Prims) (O : OutPrims) (fs : FS) :
+    (frender P O { strict := true } fs 1 [.text 1 [97, 10], .ifB 2 [(.expr 2 (.lit (.bool true)), [.text 2 [10], .obj 3 (.var [121])])]] []).runPure =
+      ([97, 10], .err (.located ⟨3, true, .other "undefinedVariable", .byCause⟩)) := by
+  simp [frender, renderRoot, renderList, renderNode, renderBranches, renderBlockBody, evalCond, wrapAt, wrapFailAt,
+    M.mapFail, M.bind, M.pure, M.getEnv, M.ofRes, M.fail, writeM, Prog.bind, Prog.mapFail, Prog.runPure, bind, pure, mkCtx,
+    evaluate, eval, Env.get, GoVal.unwrap, GoVal.isNil, GoVal.toLiquid, GoVal.test, wrapError]
+
+theorem c07Written_run (P : Prims) (O : OutPrims) (fs : FS) :
+    run P O { strict := true } fs 1 c07WrittenSrc 1 [] = .err ⟨3, true, .other "undefinedVariable", .byCause⟩ :=
+  run_error_discards_written P O { strict := true } fs 1 c07WrittenSrc 1 [] _ [97, 10] _ c07Written_compiles (c07Written_frender P O fs)
+
+example (P : Prims) (O : OutPrims) (fs : FS) : ∀ out, run P O { strict := true } fs 1 c07WrittenSrc 1 [] ≠ .ok out :=
+  run_error_no_output P O { strict := true } fs 1 c07WrittenSrc 1 [] _ (c07Written_run P O fs)
+
+/-- `run_ok_iff_frender_ok`: the text `a⏎` alone renders to itself -/
+example (P : Prims) (O : OutPrims) (fs : FS) : run P O {} fs 1 [97, 10] 1 [] = .ok [97, 10] :=
+  (run_ok_iff_frender_ok P O {} fs 1 [97, 10] 1 [] [.text 1 [97, 10]] [97, 10] rfl).mpr (by
+    simp [frender, renderRoot, renderList, renderNode, wrapFailAt, M.mapFail, M.bind, M.pure, writeM, flushM, Prog.bind, Prog.mapFail,
+      Prog.runPure, bind, pure, mkCtx, statusToProg])
 
 /-! Non-vacuity -/
 example : wrapError [] (.located ⟨2, true, .undefinedFilter [102], .byCause⟩) ⟨1, true⟩
